@@ -54,7 +54,9 @@ func (np *Processor) processNewEpoch(ev netmapEvent.NewEpoch) {
 		return bytes.Equal(i1.PublicKey(), i2.PublicKey())
 	})
 
-	if mapChanged {
+	if mapChanged && !np.alphabetState.IsAlphabet() {
+		l.Info("non alphabet mode, do not update placements in Container contract")
+	} else if mapChanged {
 		l.Debug("updating placements in Container contract...")
 		err = np.updatePlacementInContract(*networkMap, epoch, l)
 		if err != nil {
